@@ -37,6 +37,7 @@ def make_config(prop, rng, tier):
         "p_fail": rng.choice([0.0, 0.0, 0.15, 0.3]),
         "p_import": rng.choice([0.1, 0.25, 0.5]),
         "batch_max": rng.choice([1, 2, 3]),
+        "p_inputs": rng.choice([0.0, 0.2, 0.5]),
     }
 
 
@@ -94,9 +95,16 @@ def _gate(item):
 def build_circuit(spec):
     """Place the boxes of a spec one by one; an item that no longer fits
     (after shrinking) is skipped."""
-    from discopy.quantum.circuit import Id
+    from discopy.quantum.circuit import Id, Ty, qubit, bit
     c = Id(0)
     for item in spec:
+        if item["g"] == "dom":        # input wires: the circuit starts on a non-empty domain
+            if len(c) == 0 and not c.dom:
+                ty = Ty()
+                for w in item["wires"]:
+                    ty = ty @ (qubit if w == "q" else bit)
+                c = Id(ty)
+            continue
         box = _gate(item)
         at, cod = item["at"], c.cod
         n = len(box.dom)
@@ -110,6 +118,9 @@ def gen_circuit_spec(rng, cfg):
     """A random circuit spec; tracks wire kinds ('q'/'b') itself."""
     kinds, max_w = cfg["kinds"], cfg["max_wires"]
     wires, spec = [], []
+    if rng.random() < cfg.get("p_inputs", 0.0):
+        wires = [rng.choice("qqb") if "bits0" in kinds else "q" for _ in range(rng.randint(1, min(2, max_w)))]
+        spec.append({"g": "dom", "wires": list(wires)})
     for _ in range(rng.randint(1, cfg["max_boxes"])):
         qpos = [i for i, w in enumerate(wires) if w == "q"]
         bpos = [i for i, w in enumerate(wires) if w == "b"]
@@ -282,6 +293,8 @@ class World(BaseWorld):
         self.slots[op["slot"]] = {"real": c, "spec": op["spec"], "repr": repr(c)}
         for item in op["spec"]:
             self.note("box_" + item["g"])
+        if c.dom:
+            self.note("probe_circuit_with_input_wires")
         return "ok %d boxes" % len(c)
 
     def _local(self, s):
@@ -405,8 +418,11 @@ class World(BaseWorld):
         except NotImplementedError:
             self.note("backend_refused")
             return "refused"
-        except tksim.BackendFailure:
+        except (tksim.BackendFailure, CompilationFailure) as err:
             failed = True
+            if isinstance(err, CompilationFailure):
+                self.note("F3_compilation_pass_failed")
+                params.pop("compilation", None)
         except Violation:
             raise
         except Exception as err:
@@ -415,6 +431,8 @@ class World(BaseWorld):
         finally:
             self.counters.update(be.stats)
             self.sim_time += be.now
+        if op.get("compilation") == "failing" and not failed:
+            raise self.vio("failure-swallowed", "the compilation pass raised but %s returned a value" % how)
         if plan.get("fail_at") and not failed and be.calls >= plan["fail_at"]:
             raise self.vio("failure-swallowed", "the backend raised at call %d but %s returned a value"
                            % (plan["fail_at"], how))
@@ -504,6 +522,22 @@ class World(BaseWorld):
         if arr.size == ref.size:
             arr = arr.reshape(ref.shape)
         self.case("sum", tuple(s["repr"] for s in live))
+        if op.get("also_counts"):
+            be2 = tksim.SimBackend(dict(op["plan"], fail_at=None))
+            try:
+                counts = total.get_counts(backend=be2, **op.get("params", {}))
+            except NotImplementedError:
+                counts = None
+            except Exception as err:
+                raise self.vio("backend-exception", "Sum.get_counts(backend) raised %s: %s" % (
+                    type(err).__name__, str(err)[:200]))
+            self.counters.update(be2.stats)
+            if counts is not None:
+                n = ref.ndim if ref.shape != (1,) else 0
+                if not close(as_dist(counts, n), ref):
+                    raise self.vio("sum-backend", "Sum.get_counts(backend) of %d terms differs from the sum "
+                                   "of local mixed evaluations" % len(live))
+                self.note("sum_counts_checked")
         if not close(arr, ref):
             raise self.vio("sum-backend", "Sum.eval(backend) of %d terms differs from the sum of local "
                            "mixed evaluations" % len(live),
@@ -514,6 +548,10 @@ class World(BaseWorld):
 _SELFCHECK = []
 
 
+class CompilationFailure(RuntimeError):
+    """Injected callback failure (fault F3)."""
+
+
 class _Pass:
     def __init__(self, kind):
         self.kind = kind
@@ -521,6 +559,8 @@ class _Pass:
     def apply(self, circuit):
         if self.kind == "identity":
             return False
+        if self.kind == "failing":
+            raise CompilationFailure("injected failure of the compilation pass")
         if self.kind == "remove_redundancies":
             from pytket.passes import RemoveRedundancies
             return RemoveRedundancies().apply(circuit)
@@ -582,13 +622,14 @@ class Driver:
         params = {"n_shots": sched.choice([1, 64, 1024, 4096]), "seed": sched.choice([None, 7])}
         op = {"srcs": srcs, "plan": self.plan(batch), "params": params}
         if sched.random() < 0.25:
-            op["compilation"] = sched.choice(["identity", "remove_redundancies", "commute"])
+            op["compilation"] = sched.choice(["identity", "remove_redundancies", "commute", "failing"])
         if r < 0.72:
             op["op"] = "eval"
         elif r < 0.9:
             op["op"] = "counts"
         else:
             op["op"] = "sum"
+            op["also_counts"] = sched.random() < 0.5
             op.pop("compilation", None)
         return op
 
@@ -634,6 +675,9 @@ def circuit_features(spec):
     feats, seen_arity, seen_classical = set(), False, False
     for item in spec:
         g = item["g"]
+        if g == "dom":
+            c = build_circuit([item])
+            continue
         n_bits_now = sum(1 for x in c.cod if x.name == "bit")
         nxt = build_circuit_step(c, item)
         if nxt is None:
